@@ -178,7 +178,7 @@ DoRet ==
 
 DoUnwound ==
     /\ ~Idle /\ op.phase = "unwinding" /\ OpOwedEmpty
-    /\ Unwound([obs |-> <<>>, msg |-> ""])
+    /\ Unwound([obs |-> <<>>, msg |-> "", has_expected_msg |-> FALSE])
     /\ UNCHANGED <<hist, nexth>>
 
 Next == DoMk \/ DoMkNested \/ DoMkElem \/ DoRelease \/ DoReleaseElem \/ DoCall
